@@ -366,6 +366,11 @@ fn one_history(d: &mut Draw, thorough: bool) -> Outcome {
         } else {
             warm_cmds += 1;
         }
+        if cold.panicked && !warm.panicked {
+            // the reference run itself crashed (the warm run got away because it
+            // did not re-analyse / re-emit the crashing file): nothing to compare
+            return Outcome::skip(format!("the fresh-cache run panics (C11's domain): {}", cold.panic_line()));
+        }
         if cold.panicked && warm.panicked {
             return Outcome::skip(format!("both runs panic (C11's domain): {}", warm.panic_line()));
         }
